@@ -298,9 +298,16 @@ def rules(ctx):
         ok, why = False, "no KeyError on more than two labels"
         # collect the expression compared with 2
         for n in ast.walk(fn.node):
-            if isinstance(n, ast.Compare) and len(n.ops) == 1 and isinstance(n.ops[0], ast.Gt) and \
-                    is_const(n.comparators[0], 2) and isinstance(n.left, ast.Call) and is_name(n.left.func, 'len'):
-                arg = n.left.args[0]
+            lencall = None
+            if isinstance(n, ast.Compare) and len(n.ops) == 1:
+                if isinstance(n.ops[0], ast.Gt) and is_const(n.comparators[0], 2):
+                    lencall = n.left
+                elif isinstance(n.ops[0], ast.Lt) and is_const(n.left, 2):
+                    lencall = n.comparators[0]
+                elif isinstance(n.ops[0], ast.GtE) and is_const(n.comparators[0], 3):
+                    lencall = n.left
+            if isinstance(lencall, ast.Call) and is_name(lencall.func, 'len'):
+                arg = lencall.args[0]
                 text = src(arg)
                 if isinstance(arg, ast.Name):
                     defs = [src(v) for s_, v in assignments_to(fn.node, arg.id) if isinstance(v, ast.AST)]
